@@ -20,6 +20,18 @@ INFO = {
  "C20_2": ("derive(DbSerialize): serialized_size of an enum struct-variant omits the tag byte", "a user enum with a struct variant, followed by more data or size-checked", "VIOLATION by c20_derive_enum and c20_derive_nested_generic"),
  "C21_1": ("SystemTime::deserialize back to Duration::new(secs, nanos)", "13 bytes with nanos >= 10^9 and seconds within 4 of u64::MAX", "VIOLATION by c21_system_time_duration"),
  "C21_2": ("derive(DbSerialize): generated enum deserializer indexes buffer[0]", "an empty remaining slice reaching a derived enum (incl. DbValue, QueryId)", "VIOLATION by c21_derive_corpus, c21_key_value_pinned_tags, c21_query_id_count_comparison"),
+ "C06_1": ("FileStorageMemoryMapped::resize resizes its memory copy only when growing", "a shrink followed by a grow: the memory copy keeps the old tail and serves stale bytes where every other variant reads zeros", "first MISSED (quick tier made one call per variant; two symbolic calls only in thorough); VIOLATION by c06_memory_mapped_shrink_then_grow after the shrink-then-grow harnesses were added to quick"),
+ "C06_2": ("FileStorage::write counts every growing write as a pure append", "one write that starts inside the data and ends past the end", "VIOLATION by c06_file_storage_one_call, c06_any_file_matches_reference, c06_memory_mapped_one_call"),
+ "C07_1": ("Storage::extract_version: fit check drops the header size", "a file truncated inside the version record value (length 17..=23) or a version size reaching into the last 16 bytes", "VIOLATION by c07_mem_bad_version_size"),
+ "C07_2": ("GraphDataStorageIndexes::deserialize slices exact 8-byte ranges instead of open-ended ones", "a graph index record shorter than 32 bytes in an otherwise consistent file", "VIOLATION by c07_graph_storage_indexes_arbitrary"),
+ "C10_1": ("IndexedMapImpl::insert: the 'key already existed' branch returns before removing the stale forward entry", "one insert that is both a steal and a re-alias: a->1, b->2, then a->2", "C10_1_RESULT"),
+ "C10_2": ("IndexedMapImpl::insert: reverse removal guarded by `v != *value`", "inserting the identical (alias, node) pair twice", "VIOLATION by c10_indexed_map_two_inserts_keep_bijection"),
+ "C16_1": ("SearchQuery::sort: `(None, None) => break` instead of Equal", "ordered search with two or more keys where two elements both lack a non-last key but differ on a later one", "MISSED (exit 0): the sort comparator reads values through DbImpl, which is outside the C16 claim (stated in the manifest)"),
+ "C16_2": ("LimitOffsetHandler::process returns Continue(false) early for elements skipped by the offset", "unordered search with limit AND offset and a not_beyond/beyond condition whose Stop falls on a skipped element", "MISSED (exit 0): the handler harnesses use an empty condition list; a variant with pruning conditions was written and ran out of memory (conditions on the heap), so pruning conditions in the streaming handlers stay outside the claim"),
+ "C17_1": ("PathSearch::sort_paths orders by number of elements first, cost second", "a path with more hops that is strictly cheaper", "VIOLATION by c17_sort_paths_cheapest_last"),
+ "C17_2": ("PathSearch::expand_node exempts the destination from 'stopped elements cannot be used'", "conditions that evaluate to Stop exactly on the destination", "VIOLATION by c17_expand_successors, c17_expand_skips_selfloop, c17_single_edge_end_to_end"),
+ "C22_1": ("derive(DbType): the generated reader of a renamed Option field looks the value up under the field identifier", "a field that is both Option<T> and renamed and holds Some", "C22_1_RESULT"),
+ "C22_2": ("TryFrom<DbValue> for f32 rejects values beyond f32::MAX, i.e. also +-infinity", "an f32 field holding an infinity", "C22_2_RESULT"),
 }
 rows = []
 for name in sorted(os.listdir(os.path.join(V, "seeded"))):
